@@ -9,8 +9,8 @@
 (* yet).                                                                    *)
 (***************************************************************************)
 EXTENDS Naturals, Sequences, FiniteSets, TLC
-Items == {"H", "HC", "RF", "CB", "RS", "E4L", "E5L", "E5N", "BS", "B3", "TR", "TRC", "E0", "NJ", "S202", "S203"}
-Status(it) == CASE it = "E4L" -> 404 [] it = "E5L" -> 500 [] it = "E5N" -> 503 [] it = "BS" -> 204 [] it = "B3" -> 304
+Items == {"H", "HC", "RF", "CB", "RS", "E4L", "E5L", "E5N", "BS", "B3", "B103", "B104", "TR", "TRC", "E0", "NJ", "S202", "S203"}
+Status(it) == CASE it = "E4L" -> 404 [] it = "E5L" -> 500 [] it = "E5N" -> 503 [] it = "BS" -> 204 [] it = "B3" -> 304 [] it = "B103" -> 103 [] it = "B104" -> 104
                 [] it = "S202" -> 202 [] it = "S203" -> 203 [] OTHER -> 200
 NonOK(it) == Status(it) # 200
 \* outcome of one call: [o |-> "own" | "te" | "raise", status, conn (afterwards), seen (requests of this call the peer received)]
@@ -28,7 +28,7 @@ Outcome(conn, it) ==
          [] it \in {"CB", "RS"} -> [o |-> "own", status |-> 200, conn |-> "open", seen |-> 2]      \* retried once, transparently
          [] it \in {"E4L", "E5L", "S202", "S203"} -> [o |-> "te", status |-> Status(it), conn |-> "open", seen |-> 1]   \* drained
          [] it = "E5N" -> [o |-> "te", status |-> 503, conn |-> "none", seen |-> 1]
-         [] it \in {"BS", "B3"} -> [o |-> "te", status |-> Status(it), conn |-> "unread", seen |-> 1]
+         [] it \in {"BS", "B3", "B103", "B104"} -> [o |-> "te", status |-> Status(it), conn |-> "unread", seen |-> 1]
          [] it = "TR" -> [o |-> "raise", status |-> 0, conn |-> "stale", seen |-> 1]
          \* a chunked body cut after the client has parsed part of it: the read raises, the transport closes the connection
          [] it = "TRC" -> [o |-> "raise", status |-> 0, conn |-> "none", seen |-> 1]
